@@ -9,11 +9,23 @@ import numpy as np
 from dask._task_spec import Alias, List, Task, TaskRef
 from dask_array._expr import ArrayExpr
 from dask_array._utils import meta_from_array
-from dask_array._core_utils import concatenate3 as concatenate_shaped
+from dask_array._core_utils import concatenate3
 from dask_array.slicing._utils import parse_assignment_indices, setitem
 from dask.base import is_dask_collection
 from dask.core import flatten
 from dask.utils import cached_cumsum
+
+
+def concatenate_shaped(arrays, shape):
+    """Concatenate a flat (C-ordered) list of blocks laid out on a ``shape`` grid."""
+    arrays = iter(arrays)
+
+    def nest(dims):
+        if not dims:
+            return next(arrays)
+        return [nest(dims[1:]) for _ in range(dims[0])]
+
+    return concatenate3(nest(tuple(shape)))
 
 
 def parse_and_validate_assignment(indices, array_shape, value_shape):
